@@ -632,6 +632,167 @@ theorem hostRun_reaches (entry : Entry) (chain : List Frame) (p : Payload) {v : 
     · rename_i hr; simp only [hr, ↓reduceIte] at h1; simp [h1, CallRes.toHost]
     · rename_i hr; simp only [hr] at h1; simp at h1; simp [h1, CallRes.toHost]
 
+/-! ### The top of the captured stack: the last raise site -/
+
+/-- Top recorded when native code panics with the Value `v` (exceptionFromValue at a native position): the own
+stack of an Error object (even an empty one), else the native position. -/
+def nativeTop (v : JsVal) : StackTop :=
+  match v.ownStack with
+  | some s => s
+  | none => .other
+
+/-- The *Exception in flight is exactly ⟨v, t⟩, or the Value `v` itself is in flight from a native panic (it will
+be classified with top `nativeTop v = t`). -/
+def TopIs (v : JsVal) (t : StackTop) : Flow → Prop
+  | .panic (.exc ex) _ => ex = ⟨v, t⟩
+  | .panic (.val w) o => w = v ∧ o = .other ∧ t = nativeTop v
+  | _ => False
+
+/-- What one frame does to the top: a rethrowing catch block raises anew at its `throw e` (unless `v` is an Error
+object with a non-empty own stack), a native `panic(ex.Value())` raises anew at a native position, every other
+frame keeps the *Exception. -/
+def stepTop (i : Nat) (f : Frame) (v : JsVal) (t : StackTop) : StackTop :=
+  match f with
+  | .js k => if k.rethrows then (throwExec (.rethrow i) v).top else t
+  | .fcv => nativeTop v
+  | _ => t
+
+/-- Spec: the site where the exception the host sees was raised LAST (frames listed outermost first). -/
+def lastRaise (v : JsVal) (init : StackTop) : Seg → StackTop
+  | [] => init
+  | (i, f) :: rest => stepTop i f v (lastRaise v init rest)
+
+theorem topIs_cases {v : JsVal} {t : StackTop} {fl : Flow} (h : TopIs v t fl) :
+    (∃ o, fl = .panic (.exc ⟨v, t⟩) o) ∨ (fl = .panic (.val v) .other ∧ t = nativeTop v) := by
+  cases fl with
+  | normal => simp [TopIs] at h
+  | panic x o =>
+    cases x <;> simp [TopIs] at h
+    · obtain ⟨rfl, rfl, ht⟩ := h; exact Or.inr ⟨rfl, ht⟩
+    · left; exact ⟨o, by rw [h]⟩
+
+theorem applyFrame_topIs (idx : Nat) (f : Frame) (cjs : Bool) {v : JsVal} {t : StackTop} {fl : Flow}
+    (hsw : f.swallows = false) (hrw : f.rewraps = false)
+    (hu : v.goErrValue = none ∨ f.unwraps = false) (hc : TopIs v t fl) :
+    TopIs v (stepTop idx f v t) (applyFrame idx f cjs fl).1 := by
+  rcases topIs_cases hc with ⟨o, rfl⟩ | ⟨rfl, ht⟩
+  · cases f with
+    | js k =>
+      cases k <;> simp [Frame.swallows, JsKind.swallows, JsKind.hasCatch, JsKind.rethrows] at hsw <;>
+        simp [applyFrame, jsFrame, handleThrow, handleThrowLoop, exceptionFromValue, JsKind.hasCatch,
+          JsKind.hasFinally, JsKind.rethrows, TopIs, stepTop, throwExec]
+    | xfe =>
+      rcases hu with hu | hu
+      · cases cjs <;>
+          simp [applyFrame, callable, invoke, jsCall, runWrapped, vmTry, handleThrow, handleThrowLoop,
+            exceptionFromValue, wrapJSFuncE, returnErr, wrapReflectErr, hu, TopIs, stepTop]
+      · simp [Frame.unwraps] at hu
+    | ja => simp [Frame.swallows] at hsw
+    | fcs => simp [Frame.swallows] at hsw
+    | rfw => simp [Frame.rewraps] at hrw
+    | _ =>
+      cases cjs <;>
+        simp [applyFrame, callable, invoke, jsCall, runWrapped, vmTry, handleThrow, handleThrowLoop,
+          exceptionFromValue, panicErr, returnErr, wrapReflectErr, wrapJSFuncN, ErrVal.toPv, shim, jsFrame,
+          runProgram, runProgram.handleThrowOpt, JsKind.hasCatch, JsKind.hasFinally, TopIs, stepTop, panicValue,
+          nativeTop]
+  · subst ht
+    cases f with
+    | js k =>
+      cases k <;> simp [Frame.swallows, JsKind.swallows, JsKind.hasCatch, JsKind.rethrows] at hsw <;>
+        simp [applyFrame, jsFrame, handleThrow, handleThrowLoop, exceptionFromValue, JsKind.hasCatch,
+          JsKind.hasFinally, JsKind.rethrows, TopIs, stepTop, throwExec, nativeTop]
+    | xfe =>
+      rcases hu with hu | hu
+      · cases cjs <;>
+          simp [applyFrame, callable, invoke, jsCall, runWrapped, vmTry, handleThrow, handleThrowLoop,
+            exceptionFromValue, wrapJSFuncE, returnErr, wrapReflectErr, hu, TopIs, stepTop, nativeTop]
+      · simp [Frame.unwraps] at hu
+    | ja => simp [Frame.swallows] at hsw
+    | fcs => simp [Frame.swallows] at hsw
+    | rfw => simp [Frame.rewraps] at hrw
+    | _ =>
+      cases cjs <;>
+        simp [applyFrame, callable, invoke, jsCall, runWrapped, vmTry, handleThrow, handleThrowLoop,
+          exceptionFromValue, panicErr, returnErr, wrapReflectErr, wrapJSFuncN, ErrVal.toPv, shim, jsFrame,
+          runProgram, runProgram.handleThrowOpt, JsKind.hasCatch, JsKind.hasFinally, TopIs, stepTop, panicValue,
+          nativeTop]
+
+theorem evalSeg_topIs (s : Seg) (ijs : Bool) {v : JsVal} {t : StackTop} {fl : Flow}
+    (hsw : ∀ q ∈ s, q.2.swallows = false) (hrw : ∀ q ∈ s, q.2.rewraps = false)
+    (hu : v.goErrValue = none ∨ ∀ q ∈ s, q.2.unwraps = false) (hc : TopIs v t fl) :
+    TopIs v (lastRaise v t s) (evalSeg s fl ijs).1 := by
+  induction s with
+  | nil => exact hc
+  | cons hd tl ih =>
+    obtain ⟨i, f⟩ := hd
+    have ih' := ih (fun q hq => hsw q (List.mem_cons_of_mem _ hq)) (fun q hq => hrw q (List.mem_cons_of_mem _ hq))
+      (by rcases hu with h | h
+          · exact Or.inl h
+          · exact Or.inr (fun q hq => h q (List.mem_cons_of_mem _ hq)))
+    have hf : v.goErrValue = none ∨ f.unwraps = false := by
+      rcases hu with h | h
+      · exact Or.inl h
+      · exact Or.inr (h (i, f) (List.mem_cons_self ..))
+    simpa [evalSeg, lastRaise] using
+      applyFrame_topIs i f (headIsJS tl ijs) (hsw (i, f) (List.mem_cons_self ..))
+        (hrw (i, f) (List.mem_cons_self ..)) hf ih'
+
+theorem splitSegs_fst_of_nosplit (fs : List Frame) :
+    ∀ i, hasSplit fs = false → (splitSegs (indexed i fs)).1 = indexed i fs := by
+  induction fs with
+  | nil => intro i _; rfl
+  | cons f tl ih =>
+    intro i h
+    simp only [hasSplit, List.any_cons, Bool.or_eq_false_iff] at h
+    have := ih (i + 1) (by simpa [hasSplit] using h.2)
+    simp [indexed, splitSegs, h.1, this]
+
+/-- Host level: without job frames the host's *Exception is exactly ⟨v, lastRaise …⟩. -/
+theorem hostRun_topIs (entry : Entry) (chain : List Frame) (p : Payload) {v : JsVal} {t : StackTop}
+    (hp : TopIs v t p.flow) (hsw : ∀ f ∈ chain, f.swallows = false) (hrw : ∀ f ∈ chain, f.rewraps = false)
+    (hu : v.goErrValue = none ∨ (entry ≠ .exported ∧ ∀ f ∈ chain, f.unwraps = false))
+    (hn : hasSplit chain = false) :
+    (hostRun entry chain p).host = .err (.exc ⟨v, lastRaise v t (indexed 0 chain)⟩) := by
+  have hsegsw := allSegs_frames (P := fun f => f.swallows = false) chain hsw
+  have hsegrw := allSegs_frames (P := fun f => f.rewraps = false) chain hrw
+  have hsegu : v.goErrValue = none ∨ ∀ s ∈ allSegs chain, ∀ q ∈ s, q.2.unwraps = false := by
+    rcases hu with h | h
+    · exact Or.inl h
+    · exact Or.inr (allSegs_frames (P := fun f => f.unwraps = false) chain h.2)
+  have hpr := (splitSegs_snd_nil_iff chain 0).mpr hn
+  have hfst := splitSegs_fst_of_nosplit chain 0 hn
+  simp only [hostRun, allSegs] at *
+  generalize splitSegs (indexed 0 chain) = sg at *
+  obtain ⟨s0, ss⟩ := sg
+  simp only at hsegsw hsegrw hsegu hpr hfst
+  subst hpr
+  subst hfst
+  have c1 := evalSeg_topIs (indexed 0 chain) p.isJS (hsegsw _ (List.mem_cons_self ..))
+    (hsegrw _ (List.mem_cons_self ..))
+    (by rcases hsegu with h | h
+        · exact Or.inl h
+        · exact Or.inr (h _ (List.mem_cons_self ..))) hp
+  have hfin : finish entry (.err (.exc ⟨v, lastRaise v t (indexed 0 chain)⟩)) =
+      .err (.exc ⟨v, lastRaise v t (indexed 0 chain)⟩) := by
+    apply finish_exc
+    rcases hu with h | h
+    · exact Or.inl h
+    · exact Or.inr h.1
+  have hfc : ∀ b, firstCall entry b (evalSeg (indexed 0 chain) p.flow p.isJS).1 =
+      .err (.exc ⟨v, lastRaise v t (indexed 0 chain)⟩) := by
+    intro b
+    rcases topIs_cases c1 with ⟨o, h⟩ | ⟨h, ht⟩
+    · rw [h]
+      cases entry <;> cases b <;>
+        simp [firstCall, callable, runWrapped, runProgram, runProgram.handleThrowOpt, invoke]
+    · rw [h, ht]
+      cases entry <;> cases b <;>
+        simp [firstCall, callable, runWrapped, runProgram, runProgram.handleThrowOpt, invoke, jsCall, vmTry,
+          handleThrow, handleThrowLoop, exceptionFromValue, nativeTop]
+  simp only [hostRunSegs, segInner, List.isEmpty_nil, ↓reduceIte, hfc, ranLeave, runJobs, mergeJobs, hfin,
+    CallRes.toHost]
+
 theorem carried_errIs {ev : ErrVal} {e : GoErr} (h : ev.carried = some e) (t : Nat) :
     ev.errIs t = e.errIs t := by
   cases ev with
